@@ -189,6 +189,10 @@ func (r Condition) SetOperator(op Operator) Condition {
 }
 
 func (r *condition) setOperator(op Operator) {
+	if op == nil {
+		return
+	}
+
 	if len(op.Context()) > 0 && len(op.String()) > 0 {
 		r.op = op
 	}
